@@ -17,7 +17,7 @@ fi
 ( cd $W/mut && go build ./... && go test -vet=off -count=1 ./... ) >$W/test.log 2>&1 && T=pass || T=FAIL
 bash $D/demo.sh $W/mut >$W/demo-mut.log 2>&1; DM=$?
 bash $D/demo.sh $W/clean >$W/demo-clean.log 2>&1; DC=$?
-cd /verif
+cd "$(dirname "$0")/.."
 VERIF_REPO=$W/mut ./check $P --tier $TIER >$W/check.log 2>&1; RC=$?
 V=$(grep -m1 -A1 '^VIOLATION' $W/check.log | tail -1 | cut -c1-220)
 echo "SEED $P $(basename $D) tests=$T demo_mut=$DM demo_clean=$DC check_rc=$RC :: $V"
